@@ -65,7 +65,7 @@ StateViol(e) ==
          [] n = "U05e" -> U05e(e) [] n = "U05f" -> U05f(e) [] n = "U05g" -> U05g(e)
          [] n = "U12a" -> U12a(e) [] n = "U12b" -> U12b(e) [] n = "U12c" -> U12c(e) [] n = "U12d" -> U12d(e)
          [] n = "U12e" -> U12e(e) [] n = "U10a" -> U10a(e) [] n = "U10b" -> U10b(e) [] n = "U10c" -> U10c(e)}
-ActViol(a, b) == IF a.run = b.run /\ ~C06c(a, b) THEN {"U12f"} ELSE {}
+ActViol(a, b) == IF a.run = b.run /\ ~b.poolgone /\ ~C06c(a, b) THEN {"U12f"} ELSE {}
 Viol(i) == StateViol(Rec[i]) \cup (IF i > 1 THEN ActViol(Rec[i - 1], Rec[i]) ELSE {})
 
 Init == l = 0
